@@ -24,6 +24,7 @@ VARIANTS = [
     V("samples-none-reads-zero", I, "    if samples is None:\n        samples = -1\n", "    if samples is None:\n        samples = 0\n", "R15.2"),
     V("boundary-dropped-when-unpadded", "src/soundevent/audio/spectrograms.py", "        boundary=boundary,  # type: ignore", "        boundary=boundary if padded else None,  # type: ignore", "R15.4"),
     V("boundary-always-none", "src/soundevent/audio/spectrograms.py", "        boundary=boundary,  # type: ignore", "        boundary=None,", "R15.4"),
+    V("refused-seek-swallowed(G.7)", "src/soundevent/audio/io.py", "        fp.seek(offset)\n", "        try:\n            fp.seek(offset)\n        except sf.LibsndfileError:\n            pass\n", "G.7"),
     # neutral
     V("N-math-floor", I, "    offset = int(np.floor(clip.start_time * samplerate))", "    import math\n\n    offset = math.floor(clip.start_time * samplerate)", None),
     V("N-rename-duration", I, "    duration = clip.end_time - clip.start_time\n    samples = int(np.floor(duration * samplerate))", "    length = clip.end_time - clip.start_time\n    samples = int(np.floor(length * samplerate))", None),
